@@ -102,7 +102,8 @@ LocalFaults(e) ==
   IF e.k = "call" /\ e.op \in DOMAIN FnArity THEN
        {[e EXCEPT !.op = "nosuchfn"]}
        \cup (IF FnArity[e.op].max < 99 THEN {[e EXCEPT !.a = Append(e.a, e.a[Len(e.a)])]} ELSE {})
-       \cup (IF Len(e.a) = FnArity[e.op].min THEN {[e EXCEPT !.a = SubSeq(e.a, 1, Len(e.a) - 1)]} ELSE {})
+       \* one argument fewer than the least the function takes (join: the separator alone), and none at all
+       \cup {[e EXCEPT !.a = SubSeq(e.a, 1, FnArity[e.op].min - 1)], [e EXCEPT !.a = <<>>]}
   ELSE {}
 
 \* operand replacement: child i of a binary / not node replaced by a leaf its position forbids
